@@ -5,3 +5,4 @@ import Props.C14
 #print axioms Webauthn.Props.C14.roundtrip_unpadded
 #print axioms Webauthn.Props.C14.injective
 #print axioms Webauthn.Props.C14.roundtrip_str
+#print axioms Webauthn.Props.C14.length
